@@ -319,15 +319,31 @@ def _positional(ctx, repo):
     # NAryFunctionRelation: keeps the given order
     ini = repo.func(REL, "NAryFunctionRelation.__init__")
     ok = any(isinstance(s, ast.Assign) and is_self_attr(s.targets[0], "_variables") and norm(s.value) == "list(variables)" for s in walk_no_nested(ini.node))
-    loops = [l for l in ast.walk(ini.node) if isinstance(l, ast.For) and norm(l.iter) == "enumerate(var_list)"]
+    argl = {norm(a.targets[0]) for a in ast.walk(ini.node) if isinstance(a, ast.Assign) and isinstance(a.targets[0], ast.Name) and norm(a.value) == "func_args(f)"}
+    loops = [l for l in ast.walk(ini.node) if isinstance(l, ast.For) and isinstance(l.iter, ast.Call) and call_name(l.iter) == "enumerate" and len(l.iter.args) == 1 and norm(l.iter.args[0]) in argl]
     ok = ok and len(loops) == 1
     if ok:
         i, vn = [norm(e) for e in loops[0].target.elts]
-        ok = [norm(s) for s in loops[0].body] == [f"self._var_mapping[self._variables[{i}].name] = {vn}"] and "var_list = func_args(f)" in norm(ini.node)
+        ok = [norm(s) for s in loops[0].body] == [f"self._var_mapping[self._variables[{i}].name] = {vn}"]
     ctx.check(ok, "R-POSITIONAL", "NAryFunctionRelation: i-th variable <-> i-th function argument", ini, loops[0] if loops else ini.node, "")
     kw = [s for s in ast.walk(ini.node) if isinstance(s, ast.Assign) and is_self_attr(s.targets[0], "_var_mapping") and isinstance(s.value, ast.DictComp)]
     ffi = FuncFacts(ini.node)
-    ok = any((("not f_kwargs", False) in {(norm(a), b) for a, b in facts_at(ffi, s)} or ("f_kwargs", True) in {(norm(a), b) for a, b in facts_at(ffi, s)}) and norm(s.value) == "{v.name: v.name for v in variables}" for s in kw)
+    def _under_kwargs(node):
+        fs = {(norm(a), b) for a, b in facts_at(ffi, node)}
+        if ("not f_kwargs", False) in fs or ("f_kwargs", True) in fs:
+            return True
+        # through a local that is empty exactly when f_kwargs is set: `x = [] if f_kwargs else func_args(f)` ... `if x: <positional> else: <by name>`
+        for t_, p_ in fs:
+            if p_ is False and t_ in argl:
+                ds = [a for a in ast.walk(ini.node) if isinstance(a, ast.Assign) and norm(a.targets[0]) == t_]
+                empt = [a for a in ds if isinstance(a.value, (ast.List, ast.Tuple)) and not a.value.elts]
+                rest = [a for a in ds if a not in empt]
+                def f_of(a):
+                    return {(norm(x), y) for x, y in facts_at(ffi, a)}
+                if len(empt) == 1 and (("f_kwargs", True) in f_of(empt[0]) or ("not f_kwargs", False) in f_of(empt[0])) and all(("f_kwargs", False) in f_of(a) or ("not f_kwargs", True) in f_of(a) for a in rest):
+                    return True
+        return False
+    ok = any(_under_kwargs(s) and norm(s.value) == "{v.name: v.name for v in variables}" for s in kw)
     ctx.check(ok, "R-POSITIONAL", "NAryFunctionRelation: with f_kwargs the mapping is by name", ini, ini.node, "")
 
 
@@ -368,9 +384,11 @@ def _remaining(ctx, repo):
             fixed = p.has_fact(f"{v}.name in s_vars", True)
             free = p.has_fact(f"{v}.name in s_vars", False)
             if fixed:
-                a = resolve_local(sm, apps[0].value.args[0]) if apps else None
-                idx = [s.value for s in p.stmts if isinstance(s, ast.Assign) and apps and norm(s.targets[0]) == norm(apps[0].value.args[0])]
-                ok = ok and not rec and len(idx) == 1 and norm(idx[0]).startswith(f"{v}.domain.index(")
+                arg = apps[0].value.args[0] if apps else None
+                if isinstance(arg, ast.Name):
+                    idx = [s.value for s in p.stmts if isinstance(s, ast.Assign) and norm(s.targets[0]) == arg.id]
+                    arg = idx[0] if len(idx) == 1 else None
+                ok = ok and not rec and arg is not None and norm(arg).startswith(f"{v}.domain.index(")
             elif free:
                 ok = ok and len(apps) == 1 and norm(apps[0].value.args[0]) == "slice(None)" and len(rec) == 1 and norm(rec[0].value.args[0]) == v
             else:
